@@ -193,6 +193,18 @@ type Checker struct {
 	DemandFreshReRegistration bool
 	// ClaimVictims: identities whose tokens were handed over to another instance (token-count clause not applicable)
 	ClaimVictims map[string]bool
+	// Records, when set, replaces the recording store as the source of committed writes (e.g. a recording
+	// proxy in front of the gossip store)
+	Records []Record
+}
+
+// Record is one committed write: the value given to the writer's CAS function and the value it returned.
+type Record struct {
+	N      int
+	Writer string
+	At     time.Time
+	In     *ring.Desc
+	Out    *ring.Desc
 }
 
 func canonEntry(e ring.InstanceDesc) string {
@@ -252,22 +264,50 @@ func (c *Checker) Check() (findings []Finding, stats map[string]int) {
 		}
 		return ms
 	}
-	vers := c.Store.VersionsOf(Key)
-	decoded := map[int]*ring.Desc{0: ring.NewDesc()}
-	for _, v := range vers {
-		if v.Deleted {
-			decoded[v.N] = ring.NewDesc()
-			continue
+	// records: one per committed write, with the value the writer's function was given (In) and returned (Out)
+	type rec struct {
+		N      int
+		Writer string
+		At     time.Time
+		In     *ring.Desc
+		Out    *ring.Desc
+	}
+	var vers []rec
+	if c.Records != nil {
+		for _, r := range c.Records {
+			vers = append(vers, rec{r.N, r.Writer, r.At, r.In, r.Out})
 		}
-		decoded[v.N] = ring.GetOrCreateRingDesc(c.Store.Decode(v))
+	} else {
+		decoded := map[int]*ring.Desc{0: ring.NewDesc()}
+		sv := c.Store.VersionsOf(Key)
+		for _, v := range sv {
+			if v.Deleted {
+				decoded[v.N] = ring.NewDesc()
+				continue
+			}
+			decoded[v.N] = ring.GetOrCreateRingDesc(c.Store.Decode(v))
+		}
+		for _, v := range sv {
+			vers = append(vers, rec{v.N, v.Writer, v.At, decoded[v.InN], decoded[v.N]})
+		}
+	}
+	inOf := map[int]*ring.Desc{}
+	for _, v := range vers {
+		inOf[v.N] = v.In
 	}
 	lastWriteAt := map[string]time.Time{}  // writer -> last commit time
 	firstTokenVersion := map[string]int{}  // id|token -> version where the token first appeared in id's list
 	activeSeen := map[string]bool{}        // writer -> first ACTIVE version judged
 	lastStateWriter := map[string]string{} // id -> writer of the last version that held the entry
 	for _, v := range vers {
-		prev := decoded[v.N-1]
-		cur := decoded[v.N]
+		prev := v.In
+		cur := v.Out
+		if prev == nil {
+			prev = ring.NewDesc()
+		}
+		if cur == nil {
+			cur = ring.NewDesc()
+		}
 		T := v.At
 		w := byWriter[v.Writer]
 		stats["versions"]++
@@ -422,16 +462,12 @@ func (c *Checker) Check() (findings []Finding, stats map[string]int) {
 					}
 					for _, t := range ce.Tokens {
 						fv := firstTokenVersion[fmt.Sprintf("%s|%d", own, t)]
-						// the input version of the attempt that committed version fv
-						var inN = -1
-						for _, vv := range vers {
-							if vv.N == fv {
-								inN = vv.InN
-							}
-						}
-						if inN < 0 {
+						// the value the writer read in the attempt that committed version fv
+						in, okIn := inOf[fv]
+						if !okIn || in == nil {
 							continue
 						}
+						inN := fv
 						inherited := false
 						for _, m := range markOf(fv, v.Writer) {
 							if strings.HasPrefix(m.Kind, "claim:") {
@@ -441,7 +477,6 @@ func (c *Checker) Check() (findings []Finding, stats map[string]int) {
 						if inherited {
 							continue
 						}
-						in := decoded[inN]
 						for oid, oe := range in.Ingesters {
 							if oid == own {
 								continue
